@@ -474,6 +474,14 @@ class Interp:
 
     def call_function(self, fn, args, env=None):
         self.depth = getattr(self, "depth", 0) + 1
+        # the receiver of the method being interpreted (for rule hooks that
+        # stand for super().m: they need to know whose method is running)
+        push = bool(fn.args.args) and fn.args.args[0].arg == "self" and \
+            len(args) >= 1
+        if push:
+            if not hasattr(self, "_self_stack"):
+                self._self_stack = []
+            self._self_stack.append(args[0])
         try:
             if self.depth > 40:
                 raise StepBound("abstract interpretation: interpreted calls "
@@ -481,6 +489,8 @@ class Interp:
             return self._call_function(fn, args, env)
         finally:
             self.depth -= 1
+            if push:
+                self._self_stack.pop()
 
     def _call_function(self, fn, args, env=None):
         env = dict(env or {})
